@@ -9,7 +9,7 @@
     decides Leibniz equality and a comparator that is a strict total order consistent with it;
     the oracle [draw] behind the unordered set's random iteration is arbitrary. *)
 From Coq Require Import Permutation Sorted.
-From Algo.C16 Require Import Model Spec ProofsList ProofsSet ProofsHeap ProofsProg.
+From Algo.C16 Require Import Model Spec ProofsList ProofsSet ProofsHeap ProofsProg ProofsPower ProofsPart.
 Local Open Scope Z_scope.
 
 Section C16.
@@ -83,6 +83,37 @@ Section C16.
         (vk s <> Sorted -> exists f, vm u = filter f (vm s)).
   Proof. intros; eapply vdifference_spec; eauto. Qed.
 
+  (** Powerset, for every oracle: 2^n members; each a well-formed set of the operand's kind
+      and a subset of the operand; pairwise different as sets; every subset of the operand
+      (given as a duplicate-free list) occurs. *)
+  Theorem C16_powerset :
+    forall (s : vset A) (t : nat), inv A cmp s ->
+      exists PS t', powerset A eqb cmp draw (S (length (vm s))) s t = Ok (PS, t') /\ vk PS = Unordered /\
+        length (vm PS) = (2 ^ length (vm s))%nat /\
+        Forall (fun a => inv A cmp a /\ vk a = vk s /\ incl (vm a) (vm s)) (vm PS) /\
+        distinct A (vm PS) /\
+        (forall l, NoDup l -> incl l (vm s) -> exists a, In a (vm PS) /\ set_equiv A (vm a) l).
+  Proof. intros; eapply powerset_spec; eauto. Qed.
+
+  (** Partitions, for every oracle: Bell(n) members (Bell numbers by the Stirling recurrence the
+      code follows: exactly stirling2 n j members have j blocks); each member is a partition of
+      the operand — blocks are well-formed non-empty sets of the operand's kind, pairwise
+      disjoint, covering exactly the operand; members are pairwise different partitions. *)
+  Theorem C16_partitions_partial :
+    forall (s : vset A) (t : nat), inv A cmp s ->
+      exists Ps t', partitions A eqb cmp draw (S (length (vm s))) s t = Ok (Ps, t') /\ vk Ps = Unordered /\
+        length (vm Ps) = bell (length (vm s)) /\
+        (forall j, cnt A j (vm Ps) = stirling2 (length (vm s)) j) /\
+        Forall (goodpart A cmp (vk s) (vm s)) (vm Ps) /\
+        pdistinct A (vm Ps).
+  Proof.
+    intros s t Hs.
+    destruct (partitions_spec A eqb cmp draw eqb_spec cmp_eq cmp_anti cmp_trans (S (length (vm s))) s t Hs (le_n _))
+      as (Ps & t' & H & K & F & D & C & B).
+    exists Ps, t'. split; [exact H|]. split; [exact K|]. split; [|auto].
+    eapply (partitions_count A eqb cmp draw); eauto.
+  Qed.
+
   (** *** The heap layer: Go slices on a store of backing arrays, any growth policy of append.
       [abs h] reads every object of heap [h] as a set value; [good h] = no two objects share a
       backing array, every slice header lies within its array, and every object is a
@@ -155,6 +186,8 @@ Print Assumptions C16_comparisons.
 Print Assumptions C16_union.
 Print Assumptions C16_intersection.
 Print Assumptions C16_difference.
+Print Assumptions C16_powerset.
+Print Assumptions C16_partitions_partial.
 Print Assumptions C16_no_operand_modified.
 Print Assumptions C16_heap_refines_values.
 Print Assumptions C16_clone_independent.
